@@ -73,41 +73,43 @@ func (u *UnitDefinition) FormatLongFloat(amount float64, displayZero bool) strin
 	return formatNumberUnitLong(amount, u, displayZero)
 }
 
-func formatNumberUnitShort[T NumberType](amount T, unit *UnitDefinition, displayZero bool) string {
-	var formatString string
-	switch any(amount).(type) {
+// formatNumber renders an amount for display: integers exactly, floats with up to six decimals
+// and without insignificant trailing zeros. Digits before the decimal point are never removed.
+func formatNumber[T NumberType](amount T) string {
+	switch v := any(amount).(type) {
 	case int64:
-		formatString = "%d"
+		return strconv.FormatInt(v, 10)
 	case float64:
-		formatString = "%f"
+		text := strconv.FormatFloat(v, 'f', 6, 64)
+		if strings.Contains(text, ".") {
+			text = strings.TrimSuffix(strings.TrimRight(text, "0"), ".")
+		}
+		return text
 	}
+	return fmt.Sprint(amount)
+}
+
+func formatNumberUnitShort[T NumberType](amount T, unit *UnitDefinition, displayZero bool) string {
 	switch {
 	case amount == 1 || amount == -1:
-		return strings.TrimRight(fmt.Sprintf(formatString, amount), "0.") + unit.NameShortSingular()
+		return formatNumber(amount) + unit.NameShortSingular()
 	case amount != 0:
-		return strings.TrimRight(fmt.Sprintf(formatString, amount), "0.") + unit.NameShortPlural()
+		return formatNumber(amount) + unit.NameShortPlural()
 	case displayZero:
-		return strings.TrimRight(fmt.Sprintf(formatString, amount), "0.") + unit.NameShortPlural()
+		return formatNumber(amount) + unit.NameShortPlural()
 	default:
 		return ""
 	}
 }
 
 func formatNumberUnitLong[T NumberType](amount T, unit Unit, displayZero bool) string {
-	var formatString string
-	switch any(amount).(type) {
-	case int64:
-		formatString = "%d"
-	case float64:
-		formatString = "%f"
-	}
 	switch {
 	case amount == 1 || amount == -1:
-		return fmt.Sprintf(formatString, amount) + unit.NameLongSingular()
+		return formatNumber(amount) + unit.NameLongSingular()
 	case amount != 0:
-		return fmt.Sprintf(formatString, amount) + unit.NameLongPlural()
+		return formatNumber(amount) + unit.NameLongPlural()
 	case displayZero:
-		return fmt.Sprintf(formatString, amount) + unit.NameLongPlural()
+		return formatNumber(amount) + unit.NameLongPlural()
 	default:
 		return ""
 	}
